@@ -1430,7 +1430,10 @@ class Simplifier:
                     cond = cond.replace(this.pop().eq(cond))
 
                 if always_true(cond):
-                    return case.args["true"]
+                    # only the first remaining branch is certain to be the one taken
+                    if case is expression.args["ifs"][0]:
+                        return case.args["true"]
+                    break
 
                 if always_false(cond):
                     case.pop()
